@@ -377,3 +377,6 @@ PROPS["C07"] = _C07
 
 from props_C14 import ENTRY as _C14
 PROPS["C14"] = _C14
+
+from props_C10 import ENTRY as _C10
+PROPS["C10"] = _C10
